@@ -47,8 +47,10 @@ let () =
         let es = b2d_entries nn o l r in
         let m = "ok " ^ string_of_int (n2i sr) ^ "," ^ string_of_int (n2i sc) ^ " ;" ^
                 (if es = [] then "" else " " ^ String.concat "," (List.map ent3 es)) in
-        (* raw tags/offsets: the model IS the reference here (tie of the model to the C++ text) *)
-        { model = m; spec = m; dom = true }
+        (* raw tags/offsets: the model IS the reference here (tie of the model to the C++ text) — on the
+           theorem's domain only; the offsets of a (1,1) operand under several rows designate no cell *)
+        let dom = b2d_dom (n2i nn) (n2i (fst o), n2i (snd o)) (n2i (fst l), n2i (snd l)) (n2i (fst r), n2i (snd r)) in
+        { model = m; spec = (if dom then m else "unspecified"); dom }
     | _ -> failwith "ix_b2d");
   register "ix_b2dc" (fun a -> match a with
     | [n; o; l; r] ->
@@ -240,5 +242,7 @@ let () =
                   (eval_reduction (i2n n) f 0.0 ident (List.map i2n shape) (List.map i2n outk)
                      (Some (horizontal, i2n (max 0 (ax + 1)))) xs) in
         let full = prod oshape = 1 in
-        let dom = exact && init = None && (if full then ident = 0.0 else ax >= -1) in
+        (* C12_reduce_full_on_domain / C12_reduce_horizontal_core; the vertical arm and the n-d reshape are
+           corresponded only (partial) *)
+        let dom = exact && init = None && (if full then ident = 0.0 else horizontal) in
         { model = m; spec; dom })
